@@ -37,6 +37,8 @@ def one(name):
 
 
 names = sorted(d for d in os.listdir(os.path.join(V, "seeded")) if os.path.isdir(os.path.join(V, "seeded", d)))
+if os.environ.get("MATRIX_ONLY"):
+    names = [n for n in names if n in os.environ["MATRIX_ONLY"].split(",")]
 with ThreadPoolExecutor(par) as ex:
     results = dict(ex.map(one, names))
 json.dump(results, open(out, "w"), indent=1, sort_keys=True)
